@@ -362,6 +362,10 @@ def build_stop(ctx, spec):
     else:
         sensor = S.Amperometer(target=tgt)
     kind = SENSOR_VAR[spec['sensor']][1]
+    if spec.get('wrong_kind'):
+        # F_BADPARAM: a threshold of another kind than the sensor reads; the
+        # constructor accepts it, the first comparison raises TypeError
+        kind = spec['wrong_kind']
     thr = Q(getattr(U, kind), spec['thr'])
     if spec.get('np'):
         # threshold computed with numpy by the caller: a numpy.float64
@@ -1061,6 +1065,11 @@ def _execute(scn, keep_objects=False, prev_ctx=None):
                 rec['dump'] = dump(ctx)
             H['ops'].append(rec)
             if kind == 'run' and rec['exc'] is not None:
+                if op.get('expect_failure') and rec['exc'][0] == 'TypeError':
+                    # the user's mistake (a stop condition that cannot be
+                    # compared) ended this run; they correct it and go on
+                    rec['expected_failure'] = True
+                    continue
                 H['aborted_at'] = oi      # a run that raised ends the scenario
                 break
     finally:
